@@ -585,3 +585,35 @@ Section QuestionProofs.
       + split; [discriminate|]. intros [_ (m' & E)]. discriminate.
   Qed.
 End QuestionProofs.
+
+(* ---------- histories: Verify is a function of the question ---------- *)
+Section HistoryProofs.
+  Variable SK : Type.
+  Variable parse_priv : str -> option SK.
+  Variable rsa_dec : SK -> bytes -> option bytes.
+  Variable gcm_open : bytes -> bytes -> option bytes.
+  Variable b64_dec : str -> option bytes.
+  Variable run : str -> str.
+  Notation v1 := (verify_one SK parse_priv rsa_dec gcm_open b64_dec run).
+  Notation vh := (verify_history SK parse_priv rsa_dec gcm_open b64_dec run).
+
+  Lemma verify_history_acc qs : forall acc,
+    fold_left (fun verdicts q => verdicts ++ [v1 q]) qs acc = acc ++ map v1 qs.
+  Proof.
+    induction qs as [|q t IH]; intro acc; cbn [fold_left map]; [rewrite app_nil_r; reflexivity|].
+    rewrite IH, <- app_assoc. reflexivity.
+  Qed.
+
+  Lemma verify_history_is_map qs : vh qs = map v1 qs.
+  Proof. unfold verify_history. rewrite verify_history_acc. reflexivity. Qed.
+
+  (* the verdict of a question does not depend on what was verified before or after it,
+     nor on how often: it is its verdict when verified alone *)
+  Lemma verify_history_position pre q post :
+    nth_error (vh (pre ++ q :: post)) (List.length pre) = Some (v1 q) /\ vh [q] = [v1 q].
+  Proof.
+    split; [|reflexivity].
+    rewrite verify_history_is_map, map_app, nth_error_app2 by (rewrite map_length; apply le_n).
+    rewrite map_length, Nat.sub_diag. reflexivity.
+  Qed.
+End HistoryProofs.
